@@ -273,6 +273,7 @@ theorem rectAdj_maxLat (p : ℝ × ℝ × ℝ × ℝ) :
     (rectS4 (rectS3 (rectS2 p))).2.2.1 = min p.2.2.1 (π / 2) := by
   rw [rectS4_maxLat, rectS3_maxLat, rectS2_maxLat_eq]
 
+set_option linter.unnecessarySeqFocus false in
 /-- a pole adjustment widens the longitudes to the full range -/
 theorem rectAdj_full_of_pole (p : ℝ × ℝ × ℝ × ℝ) (h : π / 2 < p.2.2.1 ∨ p.1 < -π / 2) :
     (rectS4 (rectS3 (rectS2 p))).2.1 = -π ∧ (rectS4 (rectS3 (rectS2 p))).2.2.2 = π := by
@@ -311,5 +312,51 @@ theorem abs_le_two_arcsin_sqrt {x h : ℝ} (hx : |x| ≤ π / 2) (hh : sin x ^ 2
     |x| ≤ arcsin (√h) := by
   rw [← arcsin_abs_sin hx, ← sqrt_sq_eq_abs]
   exact monotone_arcsin (sqrt_le_sqrt hh)
+
+theorem mul_deg_mul_rad (x : ℝ) : x * deg * rad = x := by
+  have := pi_ne_zero
+  field_simp
+
+/-! ### DestinationPoint: the destination is at the requested angular distance -/
+
+/-- Spherical law of cosines for the destination formulas: with `φ2 = arcsin (…)` and
+    `Δλ = atan2 (…) (…) + 2πk`, the haversine of (φ1, ·) → (φ2, · + Δλ) is `sin²(δ/2)`.
+    Needs `cos φ1 ≥ 0` (a latitude). -/
+theorem dest_haversine (φ1 δ θ : ℝ) (hc : 0 ≤ cos φ1) (k : ℤ) :
+    sin ((arcsin (sin φ1 * cos δ + cos φ1 * sin δ * cos θ) - φ1) / 2) ^ 2
+      + cos φ1 * cos (arcsin (sin φ1 * cos δ + cos φ1 * sin δ * cos θ))
+        * sin ((ratan2 (sin θ * sin δ * cos φ1)
+            (cos δ - sin φ1 * sin (arcsin (sin φ1 * cos δ + cos φ1 * sin δ * cos θ)))
+              + (k : ℝ) * (2 * π)) / 2) ^ 2
+      = sin (δ / 2) ^ 2 := by
+  set S := sin φ1 * cos δ + cos φ1 * sin δ * cos θ with hS
+  have h1 := sin_sq_add_cos_sq φ1
+  have hδ := sin_sq_add_cos_sq δ
+  have hθ := sin_sq_add_cos_sq θ
+  have hid : 1 - S ^ 2 = (cos δ * cos φ1 - sin φ1 * sin δ * cos θ) ^ 2 + (sin δ * sin θ) ^ 2 := by
+    rw [hS]
+    linear_combination (-1 : ℝ) * hδ - sin δ ^ 2 * hθ - (cos δ ^ 2 + sin δ ^ 2 * cos θ ^ 2) * h1
+  have hS2 : S ^ 2 ≤ 1 := by nlinarith [sq_nonneg (cos δ * cos φ1 - sin φ1 * sin δ * cos θ), sq_nonneg (sin δ * sin θ)]
+  have hSabs : -1 ≤ S ∧ S ≤ 1 := by
+    have := abs_le.1 ((sq_le_one_iff_abs_le_one S).1 hS2); exact this
+  have hsin : sin (arcsin S) = S := sin_arcsin hSabs.1 hSabs.2
+  have hc2 : 0 ≤ cos (arcsin S) := cos_arcsin_nonneg S
+  have hc2sq : cos (arcsin S) ^ 2 = 1 - S ^ 2 := by
+    rw [cos_arcsin, sq_sqrt (by linarith)]
+  rw [hsin]
+  set x := cos δ - sin φ1 * S with hx
+  set y := sin θ * sin δ * cos φ1 with hy
+  -- norm of x + iy
+  have hnorm : ‖(⟨x, y⟩ : ℂ)‖ = cos φ1 * cos (arcsin S) := by
+    rw [← sq_eq_sq₀ (norm_nonneg _) (mul_nonneg hc hc2), Complex.sq_norm, Complex.normSq_mk, mul_pow, hc2sq, hid,
+      hx, hy, hS]
+    linear_combination (-(cos δ) * (cos δ - sin φ1 * (sin φ1 * cos δ + cos φ1 * sin δ * cos θ) + cos φ1 * (cos δ * cos φ1 - sin φ1 * sin δ * cos θ))) * h1
+  have hcos : cos φ1 * cos (arcsin S) * cos (ratan2 y x) = x := by
+    rw [← hnorm, ratan2]; exact Complex.norm_mul_cos_arg _
+  rw [sin_sq_eq_half_sub, sin_sq_eq_half_sub, sin_sq_eq_half_sub]
+  rw [show 2 * ((arcsin S - φ1) / 2) = arcsin S - φ1 by ring,
+    show 2 * ((ratan2 y x + (k : ℝ) * (2 * π)) / 2) = ratan2 y x + (k : ℝ) * (2 * π) by ring,
+    show 2 * (δ / 2) = δ by ring, cos_add_int_mul_two_pi, cos_sub, hsin]
+  linear_combination (-1 / 2 : ℝ) * hcos
 
 end Geo
